@@ -214,10 +214,16 @@ end
 /-- eval_expression(AsmContext*, Var&) with enough fuel for any input -/
 def eval (ts : List Tok) : Res (BitVec 64 × List Tok) := run (2 * ts.length + 2) false ts
 
-/-- eval_expression(AsmContext*, int*) : Var::get_int32 truncates -/
+/-- the range test of eval_expression(AsmContext*, int*): the 64-bit result must be
+    representable as a signed or as an unsigned 32-bit number -/
+def fits32 (v : BitVec 64) : Bool :=
+  decide (-2147483648 ≤ v.toInt ∧ v.toInt ≤ 4294967295)
+
+/-- eval_expression(AsmContext*, int*) : Var::get_int32 keeps the low 32 bits; a value
+    that does not fit is an error ("Constant does not fit in 32 bits") -/
 def eval32 (ts : List Tok) : Res (BitVec 32 × List Tok) :=
   match eval ts with
-  | .ok (v, r) => .ok (v.truncate 32, r)
+  | .ok (v, r) => if fits32 v then .ok (v.truncate 32, r) else .err
   | .err => .err | .fault => .fault | .fuel => .fuel
 
 end NakenVerif.Expr
